@@ -59,9 +59,8 @@ func NewHead(rootGoitPath string) (*Head, error) {
 		if ok := headRegexp.MatchString(headString); !ok {
 			return nil, ErrInvalidHead
 		}
-		headSplit := strings.Split(headString, ": ")
-		slashSplit := strings.Split(headSplit[1], "/")
-		branch := slashSplit[len(slashSplit)-1]
+		// the branch is everything after 'refs/heads/': its name may contain ': '
+		branch := headString[strings.Index(headString, "refs/heads/")+len("refs/heads/"):]
 		head.Reference = branch
 
 		// get commit from branch
